@@ -176,6 +176,8 @@ pub enum Ev {
     EpClosed { conn: usize },
     // -- application side
     GateEnter { gate: usize, conn: usize, kind: GateKind, desc: GateDesc, immediate: bool },
+    /// the handler is about to await payload data
+    PayloadWait { gate: usize },
     PayloadPiece { gate: usize, len: usize, digest: u64 },
     PayloadEnd { gate: usize, total: usize, digest: u64, err: Option<String> },
     GateOpen { gate: usize, outcome: Outcome },
@@ -186,6 +188,8 @@ pub enum Ev {
     OpDone { sender: usize, op: usize, res: OpResult },
     OpCancel { sender: usize, op: usize },
     ConnDone { conn: usize, res: String },
+    /// the per-connection services (control service) were created: the dispatcher is about to run
+    Session { conn: usize },
     // -- simulator
     Fault { conn: usize, kind: &'static str, arg: u64 },
     Clock { to_ms: u64 },
